@@ -63,6 +63,17 @@ def check_collective(inp, out):
         lc = h.load_collective
         if not (close(2 * lc.amplitude.iloc[0], out['amp2']) and close(2 * lc.meanstress.iloc[0], out['mean2']) and close(lc.upper.iloc[0] - lc.lower.iloc[0], out['amp2']) and close(lc.cycles.iloc[0], 4.0)):
             v.append(('histogram class: amplitude / mean / upper / lower inconsistent', {**case, 'form': name}, {'amp2': out['amp2'], 'mean2': out['mean2']}, {'amp2': float(2 * lc.amplitude.iloc[0]), 'mean2': float(2 * lc.meanstress.iloc[0])}))
+        # the SAME held histogram object after looking at its amplitude histogram: a query must not change what later queries return
+        before = [float(lc.amplitude.iloc[0]), float(lc.meanstress.iloc[0]), float(lc.upper.iloc[0]), float(lc.lower.iloc[0])]
+        try:
+            ah = lc.amplitude_histogram
+            if not close(ah.sum(), 4.0):
+                v.append(('amplitude_histogram does not carry the class count', {**case, 'form': name}, 4.0, float(ah.sum())))
+        except Exception as ex:
+            v.append(('amplitude_histogram raised %r' % ex, {**case, 'form': name}, None, None))
+        after = [float(lc.amplitude.iloc[0]), float(lc.meanstress.iloc[0]), float(lc.upper.iloc[0]), float(lc.lower.iloc[0])]
+        if not close(before, after):
+            v.append(('amplitude / mean / upper / lower of a held histogram change after amplitude_histogram was read', {**case, 'form': name}, before, after))
         sc = lc.scale(float(cpos))
         sh = lc.shift(float(inp['d']))
         if not (close(2 * sc.amplitude.iloc[0], cpos * out['amp2']) and close(2 * sc.meanstress.iloc[0], cpos * out['mean2']) and close(sc.cycles.iloc[0], 4.0)):
@@ -113,12 +124,23 @@ def check_rebin(inp, out, rng, fs, known):
     h, src, dst = list(inp['h']), [float(x) for x in inp['src']], [float(x) for x in inp['dst']]
     v = []
     want = [float(Fraction(*q)) for q in out['rebinned']]
-    case = {'counts': h, 'source_edges': src, 'target_edges': dst}
+    encl = inp.get('encl', 0)
+    case = {'counts': h, 'source_edges': src, 'target_edges': dst, 'enclosing_class_count': encl}
     hist = pd.Series([float(x) for x in h], index=pd.IntervalIndex.from_breaks(src), name='cycles')
+    plain = hist
+    if encl:
+        # nested source classes: one class over the whole span next to the classes it contains, as combine_histogram leaves them
+        coarse = pd.Series([float(encl)], index=pd.IntervalIndex.from_breaks([src[0], src[-1]]), name='cycles')
+        hist = combine_histogram([hist, coarse], 'sum') if len(h) > 1 else pd.concat([hist, coarse])
+        if not close(hist.sum(), sum(h) + encl):
+            v.append(('combine_histogram(sum) of two binnings does not conserve the grand total', case, sum(h) + encl, float(hist.sum())))
+            return v
     with warnings.catch_warnings():
         warnings.simplefilter('ignore')
-        for order in ('ascending', 'rotated'):
-            hh = hist if order == 'ascending' else pd.concat([hist.iloc[1:], hist.iloc[:1]])
+        for order in ('ascending', 'rotated', 'int64'):
+            hh = hist if order != 'rotated' else pd.concat([hist.iloc[1:], hist.iloc[:1]])
+            if order == 'int64':       # integer-typed class counts, as np.histogram / range_histogram(...).to_pandas() produce them
+                hh = hh.astype(np.int64)
             try:
                 got = rebin_histogram(hh, pd.IntervalIndex.from_breaks(dst))
                 if not close(got.to_numpy(), want):
@@ -135,14 +157,15 @@ def check_rebin(inp, out, rng, fs, known):
             for nb in (1, 2, 3):
                 try:
                     got = rebin_histogram(hh, nb)
-                    if len(got) != nb or not close(got.sum(), sum(h)) or not (close(got.index.left.min(), src[0]) and close(got.index.right.max(), src[-1])):
+                    if len(got) != nb or not close(got.sum(), sum(h) + encl) or not (close(got.index.left.min(), src[0]) and close(got.index.right.max(), src[-1])):
                         v.append(('rebin to %d bins does not conserve the total over the histogram\'s span' % nb, {**case, 'class_order': order}, sum(h), got.tolist()))
                 except Exception as ex:
                     if order == 'descending':
                         continue      # a strictly descending IntervalIndex is rejected by pandas' interval_range/overlaps on the unchanged tree as well: not claimed
                     v.append(('rebin to %d bins raised %r' % (nb, ex), {**case, 'class_order': order}, None, None))
         # two-dimensional histogram: every level is re-binned to ITS binning (matched by level name, whatever the level order of the target)
-        if len(dst) >= 3 and dst[0] <= src[0] and src[-1] <= dst[-1]:
+        hist = plain
+        if not encl and len(dst) >= 3 and dst[0] <= src[0] and src[-1] <= dst[-1]:
             s_iv = pd.IntervalIndex.from_breaks(src)
             o_iv = pd.IntervalIndex.from_breaks([-2.0, 0.0, 2.0])
             mat = pd.Series([float(h[i] + 2 * j) for i in range(len(h)) for j in range(2)], index=pd.MultiIndex.from_product([s_iv, o_iv], names=['range', 'mean']))
@@ -187,7 +210,7 @@ def _replay(args):
         if part == 'hist' and any(r[0] > r[1] for r in inp['rows']) and sum(out['range']) >= 1:
             nontriv.append(('hist', tuple(inp['rows']), tuple(inp['e']), tuple(inp['em'])))
         elif part == 'rebin' and sum(inp['h']) > 0 and tuple(inp['src']) != tuple(inp['dst']):
-            nontriv.append(('rebin', tuple(inp['h']), tuple(inp['src']), tuple(inp['dst'])))
+            nontriv.append(('rebin', tuple(inp['h']), tuple(inp['src']), tuple(inp['dst']), inp['encl']))
         elif part == 'collective':
             nontriv.append(('coll', tuple(inp['row']), inp['c'], inp['d']))
         if part not in seen and (part != 'hist' or len(inp['rows']) >= 2):
